@@ -252,3 +252,22 @@ if __name__ == "__main__":
     import sys
     for name in sys.argv[1:] or sorted(SCENARIOS):
         print(name, SCENARIOS[name]())
+
+
+def F5w():
+    """the application accepts with a subprotocol the client did not offer and does not catch the
+    resulting exception: WSStream._accept has already set state CONNECTED before accept() raised, so
+    when the application exits no 500 is sent; the close frame is attempted through a connection
+    object that was never created and AttributeError escapes the connection handler"""
+    async def app(scope, receive, send):
+        await receive()
+        await send({"type": "websocket.accept", "subprotocol": "not-offered"})
+
+    async def sc(h):
+        c = Client()
+        await h.feed(c.req)
+        await h.settle()
+        return h.wire
+    h, r, exc = run_h1(app, sc)
+    got500 = (h.wire or b"").startswith(b"HTTP/1.1 500")
+    return ((not got500) and "AttributeError" in names(exc)), f"bytes to the client: {bytes(h.wire[:20])!r}; exception escaping: {names(exc)}"
